@@ -521,7 +521,20 @@ var checkSub = ev.Register("subgraph", func(c *SubCase) ev.Outcome {
 		}
 		edges = append(edges, graph.Edge{Node: e[0], Edge: e[1]})
 	}
-	sk := graph.SubgraphKeep(g, append([]int(nil), c.KeepNodes...), edges)
+	// The argument slices are the caller's: they must come back untouched, and the caller
+	// re-uses them afterwards (overwritten here) - the subgraph must not depend on them.
+	knodes := append(make([]int, 0, 2*len(c.KeepNodes)+2), c.KeepNodes...)
+	kedges := append(make([]graph.Edge, 0, 2*len(edges)+2), edges...)
+	sk := graph.SubgraphKeep(g, knodes, kedges)
+	if fmt.Sprint(knodes) != fmt.Sprint(c.KeepNodes) || fmt.Sprint(kedges) != fmt.Sprint(edges) {
+		return ev.Fail("SubgraphKeep modified its arguments: nodes %v -> %v, edges %v -> %v", c.KeepNodes, knodes, edges, kedges)
+	}
+	for i := range knodes {
+		knodes[i] = -1 - i
+	}
+	for i := range kedges {
+		kedges[i] = graph.Edge{Node: -7, Edge: -7}
+	}
 	if sk.Underlying() != graph.Graph(g) {
 		return ev.Fail("SubgraphKeep: Underlying is not the original graph")
 	}
@@ -561,7 +574,18 @@ var checkSub = ev.Register("subgraph", func(c *SubCase) ev.Outcome {
 		rmE[e] = true
 		redges = append(redges, graph.Edge{Node: e[0], Edge: e[1]})
 	}
-	sr := graph.SubgraphRemove(g, append([]int(nil), c.RmNodes...), redges)
+	rnodes := append(make([]int, 0, 2*len(c.RmNodes)+2), c.RmNodes...)
+	redges2 := append(make([]graph.Edge, 0, 2*len(redges)+2), redges...)
+	sr := graph.SubgraphRemove(g, rnodes, redges2)
+	if fmt.Sprint(rnodes) != fmt.Sprint(c.RmNodes) || fmt.Sprint(redges2) != fmt.Sprint(redges) {
+		return ev.Fail("SubgraphRemove modified its arguments: nodes %v -> %v, edges %v -> %v", c.RmNodes, rnodes, redges, redges2)
+	}
+	for i := range rnodes {
+		rnodes[i] = -1 - i
+	}
+	for i := range redges2 {
+		redges2[i] = graph.Edge{Node: -7, Edge: -7}
+	}
 	if sr.Underlying() != graph.Graph(g) {
 		return ev.Fail("SubgraphRemove: Underlying is not the original graph")
 	}
